@@ -112,12 +112,16 @@ Proof.
       * apply filter_ext. intros np. f_equal. lia.
 Qed.
 
+(* the marker is clamped to the length of the part slice before it leaves Z *)
+Lemma clamp_eq marker n : Z.to_nat (Z.min marker (Z.of_nat n)) = Nat.min (Z.to_nat marker) n.
+Proof. rewrite Z2Nat.inj_min, Nat2Z.id. reflexivity. Qed.
+
 (* unpaginated (marker 0, limit above the number of parts): exactly the held parts *)
 Lemma list_parts_exact u b k id mpu limit :
   get_upload u b k id = Some mpu -> Z.of_nat (length (held_parts mpu)) <= limit ->
   list_parts u b k id 0 limit = inr {| pr_parts := held_parts mpu; pr_truncated := false; pr_next := 0 |}.
 Proof.
-  intros G L. unfold list_parts. rewrite G. cbn [Z.to_nat Nat.min skipn]. fold (held_parts mpu).
+  intros G L. unfold list_parts. rewrite G. rewrite clamp_eq. cbn [Z.to_nat Nat.min skipn]. fold (held_parts mpu).
   rewrite skipn_all2 by lia. rewrite firstn_all2 by lia. reflexivity.
 Qed.
 
@@ -132,7 +136,7 @@ Lemma list_parts_page u b k id mpu marker limit :
     (pr_truncated r = false -> skipn (Z.to_nat limit) rest = []) /\
     (pr_truncated r = true -> exists p tl, skipn (Z.to_nat limit) rest = (pr_next r, p) :: tl).
 Proof.
-  intros G Hm Hl. unfold list_parts. rewrite G. cbv zeta.
+  intros G Hm Hl. unfold list_parts. rewrite G. rewrite clamp_eq. cbv zeta.
   pose proof (parts_from_skipn (up_parts mpu) (Z.to_nat marker) 0) as E.
   cbn [Nat.add] in E. rewrite E. fold (held_parts mpu).
   set (rest := filter _ (held_parts mpu)).
